@@ -3266,12 +3266,30 @@ def _stat_matches_entry(
     return True
 
 
+def _mode_differs(fs_mode: int, entry_mode: int, honor_filemode: bool) -> bool:
+    """Tell whether a file's type or executable bit differs from its index entry.
+
+    A regular file that became a symbolic link (or the reverse) and an
+    executable bit that was flipped are changes even when the content still
+    hashes to the blob recorded in the index. Where file modes are not
+    honored (``core.filemode=false``) only a link standing where the index
+    has a regular file counts: there the executable bit is meaningless and a
+    link may have been checked out as a regular file.
+    """
+    if stat.S_ISLNK(fs_mode) != stat.S_ISLNK(entry_mode):
+        return honor_filemode or stat.S_ISLNK(fs_mode)
+    if stat.S_ISREG(fs_mode) and stat.S_ISREG(entry_mode) and honor_filemode:
+        return cleanup_mode(fs_mode) != cleanup_mode(entry_mode)
+    return False
+
+
 def _check_entry_for_changes(
     tree_path: bytes,
     entry: IndexEntry | ConflictedIndexEntry,
     root_path: bytes,
     filter_blob_callback: Callable[[Blob, bytes], Blob] | None = None,
     trust_ctime: bool = True,
+    honor_filemode: bool = False,
 ) -> bytes | None:
     """Check a single index entry for changes.
 
@@ -3281,6 +3299,9 @@ def _check_entry_for_changes(
       root_path: Root filesystem path
       filter_blob_callback: Optional callback to filter blobs
       trust_ctime: If True, use ctime for change detection (default: True)
+      honor_filemode: Whether a flipped executable bit (or a regular file
+        standing where the index has a symbolic link) counts as a change;
+        callers pass ``core.filemode``
     Returns: tree_path if changed, None otherwise
     """
     if isinstance(entry, ConflictedIndexEntry):
@@ -3297,6 +3318,11 @@ def _check_entry_for_changes(
 
         if not stat.S_ISREG(st.st_mode) and not stat.S_ISLNK(st.st_mode):
             return None
+
+        # The type of the file and its executable bit are part of what the
+        # index records; compare them before any content shortcut.
+        if _mode_differs(st.st_mode, entry.mode, honor_filemode):
+            return tree_path
 
         # Optimization: If stat matches index entry (mtime and size unchanged),
         # we can skip reading and filtering the file entirely. This is a significant
@@ -3329,6 +3355,7 @@ def get_unstaged_changes(
     preload_index: bool = False,
     trust_ctime: bool = True,
     max_stat: int | None = None,
+    honor_filemode: bool = False,
 ) -> Generator[bytes, None, None]:
     """Walk through an index and check for differences against working tree.
 
@@ -3340,6 +3367,9 @@ def get_unstaged_changes(
       trust_ctime: If True, use ctime for change detection (default: True)
       max_stat: If set, limit the number of stat operations performed.
         When the limit is reached, remaining files are assumed unchanged.
+      honor_filemode: Whether a flipped executable bit (or a regular file
+        standing where the index has a symbolic link) counts as a change;
+        callers pass ``core.filemode``
     Returns: iterator over paths with unstaged changes
     """
     # For each entry in the index check the sha1 & ensure not staged
@@ -3378,6 +3408,7 @@ def get_unstaged_changes(
                         root_path,
                         filter_blob_callback,
                         trust_ctime,
+                        honor_filemode,
                     )
                     for tree_path, entry in entries
                 ]
@@ -3394,7 +3425,12 @@ def get_unstaged_changes(
             if max_stat is not None and stat_count >= max_stat:
                 return
             result = _check_entry_for_changes(
-                tree_path, entry, root_path, filter_blob_callback, trust_ctime
+                tree_path,
+                entry,
+                root_path,
+                filter_blob_callback,
+                trust_ctime,
+                honor_filemode,
             )
             stat_count += 1
             if result is not None:
